@@ -60,11 +60,17 @@ CATALOGUE['C08'] = [
                 finally:
                     if pushed:
                         pop()
-                if index == 0:""",
+                # only the first element rendered is the start
+                pkw['sequence-start'] = 0
+
+            result""",
       """                append(render(section, md, encoding=self.encoding))
                 if pushed:
                     pop()
-                if index == 0:""", 'C08.R1'),
+                # only the first element rendered is the start
+                pkw['sequence-start'] = 0
+
+            result""", 'C08.R1'),
     V('call: level not restored', 'DT_String.py',
       '            md.level = level  # Restore previous level',
       '            pass', 'C08.R2'),
@@ -396,7 +402,10 @@ CATALOGUE['C14'] = [
                 finally:
                     if pushed:
                         pop()
-                if index == 0:""",
+                # only the first element rendered is the start
+                pkw['sequence-start'] = 0
+
+            result""",
       """                try:
                     append(render(section, md, encoding=self.encoding))
                 except Exception:
@@ -404,7 +413,10 @@ CATALOGUE['C14'] = [
                 finally:
                     if pushed:
                         pop()
-                if index == 0:""", 'C14.R1'),
+                # only the first element rendered is the start
+                pkw['sequence-start'] = 0
+
+            result""", 'C14.R1'),
     V('with: swallows everything incl. return', 'DT_With.py',
       """        try:
             return render_blocks(self.section, md, encoding=self.encoding)
@@ -1546,4 +1558,229 @@ CATALOGUE['C18'] = [
       """            blocks = self.parse(self.read())
             self._v_blocks = blocks
             self._v_cooked = None"""),
+]
+
+# --------------------------------------------------------------------- C10
+CATALOGUE['C10'] = [
+    V('element read off by one', 'DT_In.py',
+      """                else:
+                    client = sequence[index]
+
+                pkw['sequence-index'] = index
+                t = type(client)
+                if t is TupleType and len(client) == 2:
+                    client = client[1]
+
+                if no_push_item:
+                    pushed = 0
+                elif mapping:
+                    pushed = 1
+                    push(client)
+                elif t in StringTypes:
+                    pushed = 0
+                else:
+                    pushed = 1
+                    push(InstanceDict(client, md))
+
+                try:
+                    append(render(section, md, encoding=self.encoding))
+                finally:
+                    if pushed:
+                        pop()
+                # only""",
+      """                else:
+                    client = sequence[index - 1]
+
+                pkw['sequence-index'] = index
+                t = type(client)
+                if t is TupleType and len(client) == 2:
+                    client = client[1]
+
+                if no_push_item:
+                    pushed = 0
+                elif mapping:
+                    pushed = 1
+                    push(client)
+                elif t in StringTypes:
+                    pushed = 0
+                else:
+                    pushed = 1
+                    push(InstanceDict(client, md))
+
+                try:
+                    append(render(section, md, encoding=self.encoding))
+                finally:
+                    if pushed:
+                        pop()
+                # only""", 'C10.R1'),
+    V('sequence-index one based', 'DT_In.py',
+      "                    pkw['sequence-index'] = index\n                    t = type(client)",
+      "                    pkw['sequence-index'] = index + 1\n                    t = type(client)",
+      'C10.R1'),
+    V('sequence-end on the wrong index', 'DT_In.py',
+      """                if index == last:
+                    pkw['sequence-end'] = 1
+                if guarded_getitem is not None:""",
+      """                if index == l_:
+                    pkw['sequence-end'] = 1
+                if guarded_getitem is not None:""", 'C10.R1'),
+    V('sequence-start cleared when skipping (the repaired defect)',
+      'DT_In.py',
+      """                        if 'skip_unauthorized' in self.args and \\
+                           self.args['skip_unauthorized']:
+                            continue""",
+      """                        if 'skip_unauthorized' in self.args and \\
+                           self.args['skip_unauthorized']:
+                            pkw['sequence-start'] = 0
+                            continue""", 'C10.R1'),
+    V('sequence-start never cleared', 'DT_In.py',
+      """                # only the first element rendered is the start
+                pkw['sequence-start'] = 0
+
+            result""",
+      """
+            result""", 'C10.R1'),
+    V('index stored without prefix alias', 'DT_In.py',
+      "                pkw['sequence-index'] = index\n                t = type(client)",
+      "                kw['sequence-index'] = index\n                t = type(client)",
+      'C10.R2'),
+    V('alt prefix strips 8 characters', 'DT_InSV.py',
+      "                key = key[9:]", "                key = key[8:]",
+      'C10.R2'),
+    V('Letter method renamed', 'DT_InSV.py', "    def Letter(self, index):",
+      "    def UpperLetter(self, index):", 'C10.R3'),
+    V('statistic not registered', 'DT_InSV.py',
+      """    for n in statistic_names:
+        special_prefixes[n] = statistics""",
+      """    for n in statistic_names[:-1]:
+        special_prefixes[n] = statistics""", 'C10.R3'),
+    V('empty sequence renders the body', 'DT_In.py',
+      """        try:
+            sequence[0]
+        except IndexError:
+            if self.elses:
+                return render_blocks(self.elses, md, encoding=self.encoding)
+            return ''
+
+        section = self.section
+        mapping = self.mapping""",
+      """        try:
+            sequence[0]
+        except IndexError:
+            if self.elses:
+                return render_blocks(self.elses, md, encoding=self.encoding)
+
+        section = self.section
+        mapping = self.mapping""", 'C10.R4'),
+    V('unbatched renderer pushes text items', 'DT_In.py',
+      """                elif t in StringTypes:
+                    pushed = 0
+                else:
+                    pushed = 1
+                    push(InstanceDict(client, md))
+
+                try:
+                    append(render(section, md, encoding=self.encoding))
+                finally:
+                    if pushed:
+                        pop()
+                # only""",
+      """                else:
+                    pushed = 1
+                    push(InstanceDict(client, md))
+
+                try:
+                    append(render(section, md, encoding=self.encoding))
+                finally:
+                    if pushed:
+                        pop()
+                # only""", 'C10.R5'),
+    V('2-tuples no longer split', 'DT_In.py',
+      """                    if t is TupleType and len(client) == 2:
+                        client = client[1]
+""", "", 'C10.R5'),
+    # silent
+    V('silent: last via l_ - 1 inline', 'DT_In.py',
+      """                if index == last:
+                    pkw['sequence-end'] = 1
+                if guarded_getitem is not None:""",
+      """                if index == l_ - 1:
+                    pkw['sequence-end'] = 1
+                if guarded_getitem is not None:"""),
+]
+
+# --------------------------------------------------------------------- C11
+CATALOGUE['C11'] = [
+    V('next batch ignores the overlap at one site', 'DT_In.py',
+      """                    pstart, pend, psize = opt(end + 1 - overlap, 0,
+                                              sz, orphan, sequence)
+                    pkw['next-sequence'] = 1""",
+      """                    pstart, pend, psize = opt(end + 1, 0,
+                                              sz, orphan, sequence)
+                    pkw['next-sequence'] = 1""", 'C11.R1'),
+    V('next_batches off by one', 'DT_InSV.py',
+      "start, end, spam = opt(end + 1 - overlap, 0, sz, orphan, sequence)",
+      "start, end, spam = opt(end - overlap, 0, sz, orphan, sequence)",
+      'C11.R1'),
+    V('previous batch ends at first', 'DT_In.py',
+      """                            pstart, pend, psize = opt(0, first + overlap,
+                                                      sz, orphan, sequence)""",
+      """                            pstart, pend, psize = opt(0, first - 1 + overlap,
+                                                      sz, orphan, sequence)""",
+      'C11.R1'),
+    V('previous batch computed with the raw size', 'DT_InSV.py',
+      """            start, end, spam = opt(0, start - 1 + overlap, sz, orphan,
+                                   sequence)""",
+      """            start, end, spam = opt(0, start - 1 + overlap, sz, 0,
+                                   sequence)""", 'C11.R1'),
+    V('next-sequence-size off by one', 'DT_In.py',
+      """                    pkw['next-sequence-size'] = pend + 1 - pstart
+                    result = render(section, md, encoding=self.encoding)""",
+      """                    pkw['next-sequence-size'] = pend - pstart
+                    result = render(section, md, encoding=self.encoding)""",
+      'C11.R2'),
+    V('batch-end-index one based', 'DT_InSV.py',
+      "            d['batch-end-index'] = end - 1\n            d['batch-size'] = end + 1 - start\n            d['mapping'] = data['mapping']\n            r.append(v)\n        data['next-batches'] = r",
+      "            d['batch-end-index'] = end\n            d['batch-size'] = end + 1 - start\n            d['mapping'] = data['mapping']\n            r.append(v)\n        data['next-batches'] = r",
+      'C11.R2'),
+    V('orphan read as a plain option', 'DT_In.py',
+      "        orphan = int_param(params, md, 'orphan', '0')",
+      "        orphan = int(params.get('orphan', '0'))", 'C11.R3'),
+    V('next-sequence on every boundary index', 'DT_In.py',
+      """                            if index == last:
+                                pkw['next-sequence'] = 1""",
+      """                            if index == last or index == first:
+                                pkw['next-sequence'] = 1""", 'C11.R3'),
+    V('displayed range starts one late', 'DT_In.py',
+      "                for index in range(first, end):",
+      "                for index in range(start, end):", 'C11.R3'),
+    V('opt: window one too long', 'DT_InSV.py',
+      """        else:
+            end = start + size - 1
+            try:
+                sequence[end + orphan - 1]""",
+      """        else:
+            end = start + size
+            try:
+                sequence[end + orphan - 1]""", 'C11.R4'),
+    V('opt: orphan probe off by one', 'DT_InSV.py',
+      """        start = 1
+        end = start + size - 1
+        try:
+            sequence[end + orphan - 1]""",
+      """        start = 1
+        end = start + size - 1
+        try:
+            sequence[end + orphan]""", 'C11.R4'),
+    V('opt: end-anchored window start', 'DT_InSV.py',
+      "        start = end + 1 - size", "        start = end - size",
+      'C11.R4'),
+    # silent
+    V('silent: reordered linear operands', 'DT_In.py',
+      """                    pstart, pend, psize = opt(end + 1 - overlap, 0,
+                                              sz, orphan, sequence)
+                    pkw['next-sequence'] = 1""",
+      """                    pstart, pend, psize = opt(1 - overlap + end, 0,
+                                              sz, orphan, sequence)
+                    pkw['next-sequence'] = 1"""),
 ]
